@@ -2,10 +2,11 @@
    Model: Plant.v (CHPAsset / Plant incl. start / shutdown ramp profiles given in the frequency of the grid), compared with the
    implementation per instance.
    Theorems (any number of steps T, any durations): the rows are stated as the inequalities Plant.v emits (row shapes proved in
-   PlantProofs.v / PlantProfiles.v).  Partial: separate heat profiles, profiles in another frequency (interpolation) and the interplay
+   PlantProofs.v / PlantProfiles.v).  Profiles in another frequency than the grid's: Ramp.v (interpolation / time-weighted averaging), see the end of this file.
+   Partial: separate heat profiles and the interplay
    "initial obligations by bounds" are covered by the correspondence of the model builder and by the implementation oracle only. *)
-From Coq Require Import QArith Qabs ZArith List Bool.
-From EAO Require Import Num LP Plant PlantProofs PlantRows PlantProfiles.
+From Coq Require Import QArith Qabs ZArith List Bool Lqa.
+From EAO Require Import Num LP Plant PlantProofs PlantRows PlantProfiles Ramp.
 Import ListNotations.
 Open Scope Q_scope.
 
@@ -194,3 +195,21 @@ Proof.
     assert (Sw : switch_on 0 (pat [0; 1; 1; 0; 0]) 1) by (split; cbn; reflexivity).
     specialize (H Sw 2%nat ltac:(Lia.lia) ltac:(Lia.lia)). cbn in H. unfold Qeq in H. cbn in H. discriminate.
 Qed.
+
+(* start / shutdown ramp profiles given in another frequency than the grid's (CHPAsset._convert_ramp, modelled in Ramp.v and compared
+   with the implementation per instance): whatever the ratio of the two frequencies - interpolation when the grid is finer,
+   time-weighted averages when the profile is finer - every value of the converted profile lies within the range of the given
+   profile, and the converted profile covers the same time (ceil(n / ct) grid steps for n profile steps; ct = grid step in
+   profile steps) *)
+Theorem C06_profile_conversion_within :
+  forall lo hi ramp ct, ramp <> [] -> Ramp.within lo hi ramp -> Ramp.within lo hi (Ramp.convert_ramp ramp ct).
+Proof. exact Ramp.convert_ramp_within. Qed.
+Print Assumptions C06_profile_conversion_within.
+Theorem C06_profile_conversion_length :
+  forall ramp ct, List.length (Ramp.convert_ramp ramp ct) = Ramp.ceil_nat (Ramp.qnat (List.length ramp) / ct).
+Proof. exact Ramp.convert_ramp_length. Qed.
+Print Assumptions C06_profile_conversion_length.
+Example C06_profile_conversion_nonvacuous :
+  Ramp.convert_ramp [1; 3; 4] (1#2) = [1; 1; 2; 3; 7 # 2; 4] /\ Ramp.convert_ramp [1; 3; 4; 8; 2] (3#2) = [5 # 3; 11 # 3; 6; 2] /\
+  Ramp.convert_ramp [1; 3; 4] 1 = [1; 3; 4] /\ Ramp.within 1 4 [1; 3; 4].
+Proof. repeat split; try (vm_compute; reflexivity). repeat constructor; cbn; lra. Qed.
